@@ -412,6 +412,9 @@ impl Connection {
     }
 }
 
+#[cfg(amiquip_verif)]
+pub(crate) use self::amqp_url::verif_decode_url;
+
 mod amqp_url {
     use super::*;
     use crate::{Auth, Error};
@@ -462,6 +465,18 @@ mod amqp_url {
         }
         let last_err = last_err.unwrap_or(Error::UrlNoSocketAddrs { url });
         Err(last_err)
+    }
+
+    #[cfg(amiquip_verif)]
+    pub(crate) fn verif_decode_url(
+        url: &str,
+    ) -> Result<(bool, String, u16, ConnectionOptions<Auth>)> {
+        let mut url = Url::parse(url).context(UrlParseSnafu)?;
+        let scheme = populate_host_and_port(&mut url)?;
+        let options = decode(&url)?;
+        let host = url.host_str().unwrap_or("").to_string();
+        let port = url.port().unwrap_or(0);
+        Ok((scheme == Scheme::Amqps, host, port, options))
     }
 
     #[cfg(not(feature = "native-tls"))]
